@@ -232,3 +232,108 @@ func (o *Once) Do(f func()) {
 		f()
 	}
 }
+
+// Pool mirrors sync.Pool (so that code under test that pools buffers still builds under the owned
+// scheduler). One managed goroutine runs at a time, so no locking is needed; Get returns the most
+// recently Put item - the behaviour of sync.Pool on a single P, and the one that makes a pooled item
+// still referenced elsewhere show up deterministically.
+type Pool struct {
+	New   func() any
+	items []any
+}
+
+func (p *Pool) Get() any {
+	Yield("pool-get")
+	if n := len(p.items); n > 0 {
+		x := p.items[n-1]
+		p.items = p.items[:n-1]
+		return x
+	}
+	if p.New != nil {
+		return p.New()
+	}
+	return nil
+}
+
+func (p *Pool) Put(x any) {
+	if x == nil {
+		return
+	}
+	Yield("pool-put")
+	p.items = append(p.items, x)
+}
+
+// Map mirrors sync.Map on top of a managed mutex.
+type Map struct {
+	mu Mutex
+	m  map[any]any
+}
+
+func (m *Map) Load(key any) (any, bool) {
+	m.mu.Lock()
+	defer m.mu.Unlock()
+	v, ok := m.m[key]
+	return v, ok
+}
+
+func (m *Map) Store(key, value any) {
+	m.mu.Lock()
+	defer m.mu.Unlock()
+	if m.m == nil {
+		m.m = map[any]any{}
+	}
+	m.m[key] = value
+}
+
+func (m *Map) LoadOrStore(key, value any) (any, bool) {
+	m.mu.Lock()
+	defer m.mu.Unlock()
+	if v, ok := m.m[key]; ok {
+		return v, true
+	}
+	if m.m == nil {
+		m.m = map[any]any{}
+	}
+	m.m[key] = value
+	return value, false
+}
+
+func (m *Map) LoadAndDelete(key any) (any, bool) {
+	m.mu.Lock()
+	defer m.mu.Unlock()
+	v, ok := m.m[key]
+	delete(m.m, key)
+	return v, ok
+}
+
+func (m *Map) Delete(key any) { m.LoadAndDelete(key) }
+
+func (m *Map) Range(f func(key, value any) bool) {
+	m.mu.Lock()
+	type kv struct{ k, v any }
+	var all []kv
+	for k, v := range m.m {
+		all = append(all, kv{k, v})
+	}
+	m.mu.Unlock()
+	for _, e := range all {
+		if !f(e.k, e.v) {
+			return
+		}
+	}
+}
+
+// OnceFunc, OnceValue mirror the sync helpers.
+func OnceFunc(f func()) func() {
+	var o Once
+	return func() { o.Do(f) }
+}
+
+func OnceValue[T any](f func() T) func() T {
+	var o Once
+	var v T
+	return func() T {
+		o.Do(func() { v = f() })
+		return v
+	}
+}
